@@ -257,7 +257,13 @@ def run_history(name, events):
                 fed += 1
             why = 'unchanged-by-later-input'
         elif ev == 'B':
-            m = loader.build_metamodel()
+            try:
+                m = loader.build_metamodel()
+            except Exception as e:
+                out.append(('build-contains-exactly-accepted-input',
+                            dict(event=ei, inputs=fed, raised='%s: %s' % (type(e).__name__, str(e)[:200])),
+                            'the build succeeds and equals the description of the inputs accepted so far'))
+                continue
             required = G.expected_view(descs[fed])
             d = G.diff_views(required, G.observe(m))
             if d:
